@@ -7,12 +7,15 @@ Property theorems only (helper lemmas: `Proofs/BrokerFanout*.lean`).  Model:
 `srvSub`) over the retained trie of `Model/Topics.lean` and its finished
 theorems (`Properties/C06.lean`); specification: `Spec/Broker.lean`.
 -/
-import Mqtt.Proofs.BrokerFanoutOut
+import Mqtt.Proofs.BrokerFanoutRetained
 
 set_option linter.unusedSimpArgs false
 
 namespace Mqtt.Properties.C08
 open Mqtt.Iface.Broker Mqtt.Model.Broker Mqtt.Proofs.Broker
+open Mqtt.Model.Topics (RMsg RNode)
+open Mqtt.Proofs.Topics (RWF absR good)
+open Mqtt.Spec.Match (split validName)
 
 def exConnect (c : Nat) (cid : Bytes) : Ev :=
   .first c (.connect { protoName := [77, 81, 84, 84], version := 4, clean := true, will := none, clientId := cid }) true
@@ -86,6 +89,105 @@ example :
        .call 1000 { qos := 1, retain := true, topic := [97, 47, 98], pktid := 5, payload := [7] },
        .send 1 (.publish { qos := 1, retain := false, topic := [97, 47, 98], pktid := 5, payload := [7] }),
        .send 2 (.publish { qos := 1, retain := false, topic := [97, 47, 98], pktid := 5, payload := [7] })] := by
+  decide
+
+/-! ### (g) the retain step: one message per topic, last non-empty one wins, empty clears -/
+
+/-- The retain step of `onPublish` on a well-formed retained trie, for a topic
+name without empty and without '$'-led levels (`good`; findings B3/B4 are
+outside).  RETAIN = 0: nothing changes.  RETAIN = 1 with an empty payload:
+exactly the entry under the topic's path disappears, every other entry stays.
+RETAIN = 1 with a non-empty payload: the entry under the topic's path is
+replaced by (or added as) one message with the PUBLISH's topic, QoS and payload
+and RETAIN = 1; every other entry stays.  The subscription trie, connections
+and sessions are never touched. -/
+theorem C08_retain_step_partial (b : B) (m : Msg) (hwf : RWF b.topics.rroot)
+    (hg : good m.p.topic = true) (hn : validName m.p.topic = true) :
+    RWF (retainStep b m).1.topics.rroot ∧
+    (m.p.retain = false → retainStep b m = (b, m)) ∧
+    (m.p.retain = true → m.p.payload = [] →
+      (absR (retainStep b m).1.topics.rroot).Perm
+        ((absR b.topics.rroot).filter (fun e => !(e.1 == split m.p.topic)))) ∧
+    (m.p.retain = true → m.p.payload ≠ [] →
+      ∃ r : RMsg, r.topic = m.p.topic ∧ r.qos = m.p.qos ∧ r.payload = m.p.payload ∧ r.retain = true ∧
+        (absR (retainStep b m).1.topics.rroot).Perm
+          ((absR b.topics.rroot).filter (fun e => !(e.1 == split m.p.topic)) ++ [(split m.p.topic, r)])) ∧
+    (retainStep b m).1.topics.sroot = b.topics.sroot ∧ (retainStep b m).1.conns = b.conns ∧
+    (retainStep b m).1.sess = b.sess := by
+  obtain ⟨e1, e2⟩ := Mqtt.Proofs.Topics.levels_valid m.p.topic hg
+    (Mqtt.Proofs.Topics.validName_validFilter _ hn)
+  have ht : m.p.topic ≠ [] := by
+    intro h0; rw [h0] at hn; exact absurd hn (by decide)
+  obtain ⟨f1, f2, f3, _, _⟩ := retainStep_frame b m
+  refine ⟨?_, retainStep_noretain b m, ?_, ?_, f1, f2, f3⟩
+  · cases hr : m.p.retain with
+    | false => rw [retainStep_noretain b m hr]; exact hwf
+    | true =>
+      by_cases hp : m.p.payload = []
+      · rw [(retainStep_clear b m hr hp).1]
+        exact Mqtt.Proofs.Topics.rremoveL_RWF _ _ _ hwf
+      · obtain ⟨r, _, _, _, _, _, hroot⟩ := retainStep_store b m hr hp e2 ht
+        rw [hroot]
+        exact Mqtt.Proofs.Topics.rinsertL_RWF _ _ _ _ hwf
+  · intro hr hp
+    rw [(retainStep_clear b m hr hp).1, e1, e2]
+    exact Mqtt.Proofs.Topics.rremoveL_absR _ _ hwf
+  · intro hr hp
+    obtain ⟨r, r1, r2, r3, r4, _, hroot⟩ := retainStep_store b m hr hp e2 ht
+    refine ⟨r, r1, r2, r3, r4, ?_⟩
+    rw [hroot, e1]
+    exact Mqtt.Proofs.Topics.rinsertL_absR _ _ _ hwf
+
+/-- "At most one retained message per topic": after a retained PUBLISH with a
+non-empty payload the trie holds exactly one message under the topic's path. -/
+theorem C08_one_per_topic_partial (b : B) (m : Msg) (hwf : RWF b.topics.rroot)
+    (hg : good m.p.topic = true) (hn : validName m.p.topic = true)
+    (hr : m.p.retain = true) (hp : m.p.payload ≠ []) :
+    ∃ r : RMsg, r.topic = m.p.topic ∧ r.qos = m.p.qos ∧ r.payload = m.p.payload ∧
+      ((absR (retainStep b m).1.topics.rroot).filter (fun e => e.1 == split m.p.topic)).Perm
+        [(split m.p.topic, r)] := by
+  obtain ⟨r, r1, r2, r3, _, hperm⟩ := (C08_retain_step_partial b m hwf hg hn).2.2.2.1 hr hp
+  refine ⟨r, r1, r2, r3, ?_⟩
+  have := hperm.filter (fun e => e.1 == split m.p.topic)
+  refine this.trans ?_
+  rw [List.filter_append, List.filter_filter]
+  simp
+
+/-- The retain step against the specification's retained store
+(`Spec.Broker.retainStep`: drop the topic's message, append the new one unless
+the payload is empty): if the trie holds exactly the messages `rets` - each
+under the path of its topic, with topic, QoS and payload as listed and
+RETAIN = 1 - then after the step it holds exactly the specification's next
+list.  By induction over histories: the retained message of a topic is the
+most recent retained PUBLISH with a non-empty payload since the last empty one. -/
+theorem C08_retain_refines_partial (b : B) (m : Msg) (rets : List Mqtt.Spec.Broker.Ret)
+    (h : RetInv b.topics.rroot rets) (hg : good m.p.topic = true) (hn : validName m.p.topic = true) :
+    RetInv (retainStep b m).1.topics.rroot (Mqtt.Spec.Broker.retainStep { rets := rets } m.p).rets :=
+  retainStep_refines b m rets h hg hn
+
+/-- the full statement: all valid topic names -/
+def C08_retain_refines_full : Prop :=
+  ∀ (b : B) (m : Msg) (rets : List Mqtt.Spec.Broker.Ret), RetInv b.topics.rroot rets → validName m.p.topic = true →
+    RetInv (retainStep b m).1.topics.rroot (Mqtt.Spec.Broker.retainStep { rets := rets } m.p).rets
+
+/-- False of the code as it is (finding B3): a retained message on "a/" (two
+levels, the second empty) is stored under the path of "a" and replaces the
+message retained there. -/
+theorem C08_retain_refines_full_counterexample : ¬ C08_retain_refines_full := by
+  intro h
+  let m0 : Msg := ⟨{ qos := 0, retain := true, topic := [97], payload := [1] }, false⟩
+  let m1 : Msg := ⟨{ qos := 0, retain := true, topic := [97, 47], payload := [2] }, false⟩
+  have h0 := retainStep_refines {} m0 [] RetInv_empty (by decide) (by decide)
+  have h1 := (h (retainStep {} m0).1 m1 _ h0 (by decide)).perm.length_eq
+  exact absurd h1 (by decide)
+
+/-- non-vacuity: store on "a/b", replace it, store on "a", clear "a/b" -/
+example :
+    let pub (t : Bytes) (q : Nat) (pl : Bytes) : Ev := .packet 2 (.publish { qos := q, retain := true, topic := t, payload := pl })
+    let b1 := (run exState [pub [97, 47, 98] 0 [1], pub [97, 47, 98] 0 [2], pub [97] 0 [3]]).1
+    let b2 := (step b1 (pub [97, 47, 98] 0 [])).1
+    (absR b1.topics.rroot).map retOf = [([[97]], ⟨[97], 0, [3]⟩), ([[97], [98]], ⟨[97, 47, 98], 0, [2]⟩)] ∧
+    (absR b2.topics.rroot).map retOf = [([[97]], ⟨[97], 0, [3]⟩)] := by
   decide
 
 end Mqtt.Properties.C08
